@@ -15,7 +15,12 @@ from runner import Judge
 from stonegen import render_schema, render_type, render_literal
 from wire import Binder, norm_abs
 
-STONE_CFG = 'namespace stone_cfg\n\nstruct Route\n    style String = "rpc"\n'
+STONE_CFG = ('namespace stone_cfg\n\nstruct Route\n    host String = "api"\n    scope String?\n    auth String\n'
+             '    style String = "rpc"\n')
+
+
+def attr_val(a):
+    return None if a['k'] == 'null' else a['s']
 
 
 def py_route_name(n, ver):
@@ -47,6 +52,9 @@ def render_model(schema, routes):
             body.append('    "Route %s."' % r['n'])
             body.append('    attrs')
             body.append('        style = "%s"' % r['style'])
+            if r.get('scope'):
+                body.append('        scope = "%s"' % r['scope'])
+            body.append('        auth = "%s"' % r.get('auth', 'user'))
             body.append('')
         have = {l.split()[1] for l in lines if l.startswith('import ')}
         extra = ['import %s' % x for x in sorted(refs - {ns} - have)]
@@ -54,6 +62,12 @@ def render_model(schema, routes):
         out.append((ns + '.stone', '\n'.join(lines) + '\n' + '\n'.join(body) + '\n'))
     out.append(('stone_cfg.stone', STONE_CFG))
     return out
+
+
+def pymod(ns):
+    """Python module of a namespace (mirrors StoneLoadMC!PyModule; `keyword` is the independent oracle)."""
+    import keyword
+    return ns + '_' if keyword.iskeyword(ns) else ns
 
 
 def pep(p):
@@ -69,7 +83,7 @@ def pep(p):
     if k == 'Optional':
         return 'Optional[%s]' % pep(p['e'])
     if k == 'cls':
-        return (p['ns'] + '.' if p['ns'] else '') + p['n']
+        return (pymod(p['ns']) + '.' if p['ns'] else '') + p['n']
     raise ValueError(p)
 
 
@@ -114,7 +128,7 @@ class Model:
         if self.tmp not in sys.path:
             sys.path.insert(0, self.tmp)
             importlib.invalidate_caches()
-        return {ns: importlib.import_module('%s.%s' % (self.pkg, ns)) for ns in self.surfaces}
+        return {ns: importlib.import_module('%s.%s' % (self.pkg, self.surfaces[ns]['pymod'])) for ns in self.surfaces}
 
 
 class LoadJudge(Judge):
@@ -168,8 +182,8 @@ class LoadJudge(Judge):
         self.judged += 1
         others = [ns for ns in m.surfaces if ns != obj['first']]
         code = ('import sys, importlib; sys.path.insert(0, %r)\n'
-                'importlib.import_module(%r)\n' % (m.tmp, '%s.%s' % (m.pkg, obj['first'])) +
-                ''.join('importlib.import_module(%r)\n' % ('%s.%s' % (m.pkg, ns)) for ns in others))
+                'importlib.import_module(%r)\n' % (m.tmp, '%s.%s' % (m.pkg, m.surfaces[obj['first']]['pymod'])) +
+                ''.join('importlib.import_module(%r)\n' % ('%s.%s' % (m.pkg, m.surfaces[ns]['pymod'])) for ns in others))
         r = subprocess.run([sys.executable, '-c', code], capture_output=True, text=True, timeout=120)
         ok = r.returncode == 0
         if self.judged % 97 == 1:
@@ -295,8 +309,9 @@ class LoadJudge(Judge):
                             bad('route %s %s is %r, expected Void' % (key, attr, v))
                     elif v is not getattr(mods[sc[t['n']]['ns']], t['n'] + '_validator'):
                         bad('route %s %s is not %s_validator' % (key, attr, t['n']))
-                if ro.attrs.get('style') != r['style']:
-                    bad('route %s attrs %r, expected style %s' % (key, ro.attrs, r['style']))
+                want_attrs = dict(zip(_seq(r['attr_names']), [attr_val(a) for a in _seq(r['attrs'])]))
+                if dict(ro.attrs) != want_attrs:
+                    bad('route %s attrs %r, expected %r' % (key, ro.attrs, want_attrs))
                 if not isinstance(routes, dict) or routes.get(key) is not ro:
                     bad('ROUTES[%r] is not the route object' % key)
             if exp_keys and (not isinstance(routes, dict) or set(routes) != exp_keys):
@@ -314,7 +329,7 @@ class LoadJudge(Judge):
         def bad(msg):
             self.violation(None, '%s (model %s)' % (msg, m.c), ctx)
         for ns, surf in m.surfaces.items():
-            path = os.path.join(m.tmp, 'stubs', ns + '.pyi')
+            path = os.path.join(m.tmp, 'stubs', m.surfaces[ns]['pymod'] + '.pyi')
             try:
                 with open(path) as f:
                     tree = ast.parse(f.read())
@@ -556,7 +571,7 @@ def _optional(sc, f):
 
 
 def _qual(sc, ns, n):
-    return n if sc[n]['ns'] == ns else '%s.%s' % (sc[n]['ns'], n)
+    return n if sc[n]['ns'] == ns else '%s.%s' % (pymod(sc[n]['ns']), n)
 
 
 def _some(sc, t, depth=0):
@@ -572,6 +587,10 @@ def _some(sc, t, depth=0):
         return {'k': 'str', 'len': max(1, t['min']), 'ok': True, 'u': 0}
     if k == 'bool':
         return {'k': 'bool', 'b': True}
+    if k == 'ts':
+        return {'k': 'ts', 'id': 0}
+    if k == 'bytes':
+        return {'k': 'bytes', 'len': 2, 'id': 0}
     if k == 'list':
         return {'k': 'list', 'items': [_some(sc, t['e'], depth)]}
     if k == 'map':
